@@ -678,6 +678,8 @@ class MinMaxAggregator:
         new list of elements
         """
         term_tuple = elem.terms
+        if not term_tuple:
+            return [elem]  # element with an empty tuple: nothing to replace
         # split condition into the max predicate + translation and the rest
         old_max, minmaxpred, rest_cond = self._split_element(term_tuple[0].location, elem, rest_elems)
         if minmaxpred is None:
